@@ -99,6 +99,55 @@ def counter_ops(body, du):
     return out
 
 
+def growth_rule(cx, rule):
+    """the growth decision of ThreadPool::execute (shared by C14.R3 and C13.R7)"""
+    ex = cx.mir.one("varlink", EXEC)
+    cx.saw(ex)
+    cfg = Cfg(ex); du = DefUse(ex)
+    sends = [t for t in ex.calls("=send") if "mpsc" in t.callee.path or "Sender" in t.callee.path]
+    if len(sends) != 1: raise AnchorMissing("execute(): expected one Sender::send, found %d" % len(sends))
+    send = sends[0]
+    ops = counter_ops(ex, du)
+    incs = [s for k, s in ops if k == "inc"]
+    site = "%s %s" % (send.sp, ex.path)
+    inc_ok = len(incs) == 1 and cfg.dominates(incs[0].bb, send.bb) and send.bb not in cfg.reach(0, blocked_nodes={incs[0].bb})
+    cx.check(inc_ok, rule, "varlink:execute:count-before-send", site,
+             "execute() does not count the job before sending it (%d increments of the busy counter dominate Sender::send): a job that a worker has dequeued but not yet counted is invisible to the growth test, so a connection can be left queued although workers < max" % len([s for s in incs if cfg.dominates(s.bb, send.bb)]),
+             note_ok="busy counter incremented before the job becomes visible")
+    pushes = [t for t in ex.calls("=push") if "workers" in chain_fields(ex, du, t.args[0].place.l)]
+    if not pushes: raise AnchorMissing("execute(): no workers.push")
+    facts = facts_on_edges(ex, cfg, du, pushes[0].bb)
+    growth = [(n, term) for n, term in facts if {n[0], n[1]} == {"busy", "len"}]
+    okg = False; why = "no comparison between the busy counter and workers.len() dominates the growth"
+    if growth:
+        n, term = growth[0]
+        # normalise to busy - len >= c
+        if n[0] == "busy" and n[2] == "ge": c = n[3]
+        elif n[0] == "len" and n[2] == "le": c = -n[3]
+        else: c = None
+        # the counter read must come after the increment
+        reads = [t for t in ex.calls("=num_busy", "=load")]
+        # (a value read through the guard that performs the increment is trivially read after it)
+        after = bool(incs) and all(cfg.dominates(incs[0].bb, r.bb) for r in reads)
+        okg = c is not None and c <= 1 and after
+        why = "growth test is busy - len >= %s (needs <= 1 so that jobs > workers always grows); counter read after the increment: %s" % (c, after)
+    cx.check(okg, rule, "varlink:execute:growth-test", "%s %s" % (pushes[0].sp, ex.path), why, note_ok=why)
+    # other conditions on the growth path: only comparisons over busy/len/max may dominate the push
+    extra = []
+    for (src, lab, dst) in dominating_edges(cfg, pushes[0].bb):
+        term = ex.blocks[src].term
+        c = switch_cond(ex, du, term)
+        if c.kind == "const": continue
+        if c.kind == "bin":
+            syms = {lin(ex, du, c.a)[0], lin(ex, du, c.b)[0]}
+            if syms <= {"busy", "len", "max", None}: continue
+        extra.append("%s@%s" % (c.kind, term.sp))
+    cx.check(not extra, rule, "varlink:execute:no-extra-growth-condition", "%s %s" % (pushes[0].sp, ex.path),
+             "the growth of the pool additionally depends on %s: connections can be stranded when that condition is false" % extra,
+             note_ok="growth depends only on busy/len/max")
+    return incs
+
+
 def run(cx):
     cx.rule("C14.R1", "bound: every growth of the worker vector outside the constructor is dominated by a comparison that implies workers.len() < max_workers")
     cx.rule("C14.R2", "who spawns: Worker::new is called only by ThreadPool::new/execute and thread::spawn in server.rs only by Worker::new")
@@ -156,47 +205,7 @@ def run(cx):
                          "server.rs spawns a thread outside Worker::new", note_ok="the worker thread")
     cx.floor("C14.R2", "spawn sites", nspawn, 3)
     # ---- R3
-    sends = [t for t in ex.calls("=send") if "mpsc" in t.callee.path or "Sender" in t.callee.path]
-    if len(sends) != 1: raise AnchorMissing("execute(): expected one Sender::send, found %d" % len(sends))
-    send = sends[0]
-    ops = counter_ops(ex, du)
-    incs = [s for k, s in ops if k == "inc"]
-    site = "%s %s" % (send.sp, ex.path)
-    inc_ok = len(incs) == 1 and cfg.dominates(incs[0].bb, send.bb) and send.bb not in cfg.reach(0, blocked_nodes={incs[0].bb})
-    cx.check(inc_ok, "C14.R3", "varlink:execute:count-before-send", site,
-             "execute() does not count the job before sending it (%d increments of the busy counter dominate Sender::send): a job that a worker has dequeued but not yet counted is invisible to the growth test, so a connection can be left queued although workers < max" % len([s for s in incs if cfg.dominates(s.bb, send.bb)]),
-             note_ok="busy counter incremented before the job becomes visible")
-    pushes = [t for t in ex.calls("=push") if "workers" in chain_fields(ex, du, t.args[0].place.l)]
-    if not pushes: raise AnchorMissing("execute(): no workers.push")
-    facts = facts_on_edges(ex, cfg, du, pushes[0].bb)
-    growth = [(n, term) for n, term in facts if {n[0], n[1]} == {"busy", "len"}]
-    okg = False; why = "no comparison between the busy counter and workers.len() dominates the growth"
-    if growth:
-        n, term = growth[0]
-        # normalise to busy - len >= c
-        if n[0] == "busy" and n[2] == "ge": c = n[3]
-        elif n[0] == "len" and n[2] == "le": c = -n[3]
-        else: c = None
-        # the counter read must come after the increment
-        reads = [t for t in ex.calls("=num_busy", "=load")]
-        # (a value read through the guard that performs the increment is trivially read after it)
-        after = bool(incs) and all(cfg.dominates(incs[0].bb, r.bb) for r in reads)
-        okg = c is not None and c <= 1 and after
-        why = "growth test is busy - len >= %s (needs <= 1 so that jobs > workers always grows); counter read after the increment: %s" % (c, after)
-    cx.check(okg, "C14.R3", "varlink:execute:growth-test", "%s %s" % (pushes[0].sp, ex.path), why, note_ok=why)
-    # other conditions on the growth path: only comparisons over busy/len/max may dominate the push
-    extra = []
-    for (src, lab, dst) in dominating_edges(cfg, pushes[0].bb):
-        term = ex.blocks[src].term
-        c = switch_cond(ex, du, term)
-        if c.kind == "const": continue
-        if c.kind == "bin":
-            syms = {lin(ex, du, c.a)[0], lin(ex, du, c.b)[0]}
-            if syms <= {"busy", "len", "max", None}: continue
-        extra.append("%s@%s" % (c.kind, term.sp))
-    cx.check(not extra, "C14.R3", "varlink:execute:no-extra-growth-condition", "%s %s" % (pushes[0].sp, ex.path),
-             "the growth of the pool additionally depends on %s: connections can be stranded when that condition is false" % extra,
-             note_ok="growth depends only on busy/len/max")
+    incs = growth_rule(cx, "C14.R3")
     # ---- R4
     wcfg = Cfg(wk, unwind=False); wdu = DefUse(wk)
     wops = counter_ops(wk, wdu)
